@@ -37,7 +37,8 @@ _RULE_VIRTUAL = (
     "absolute datetime, d == p and d != p, scheduler given to the factory or to subscribe) subscribed at t0, disposed at "
     "a generated time or never: on_next log is exactly [(t0+d+k*p, k) for k=0..n-1] with int values, no terminal event. "
     "Check 'resubscribe': ONE interval/timer observable subscribed 2..3 times at generated instants (also after an earlier subscription was disposed), each subscription optionally disposed: every subscription gets int 0,1,2,... at its own ticks (counted from its own subscribe time; from the absolute due time for an absolute d). The kinds histus/vtsus/catch-histus drive the same schedulers with microsecond-granular periods and times (exactly representable in datetime/timedelta/float seconds). "
-    "Non-trivial: >=3 ticks and a dispose or raise strictly inside the run (resubscribe: a later subscription emitted >= 2 values). Distinct = distinct case JSON."
+    "Check 'late_ticks': interval/timer (relative and absolute d, also an absolute d in the past) whose ticks are served late - the observer's on_next consumes virtual time (scheduler.sleep inside the callback) and/or the clock sleeps over a pending tick, by amounts landing exactly on / just before / just after whole periods; judged only as far as the statement determines a late tick: values are 0,1,2,... in order, value k never before t0+d+k*period, never two values at one instant (period > 0), the first value not lost, nothing after dispose. "
+    "Non-trivial: >=3 ticks and a dispose or raise strictly inside the run (late_ticks: a late tick served and >= 3 values; resubscribe: a later subscription emitted >= 2 values). Distinct = distinct case JSON."
 )
 _ASSUMPTIONS_VIRTUAL = [
     "periods are >= 1 unit (a zero period on virtual time never lets the clock advance; negative periods are excluded)",
@@ -539,6 +540,129 @@ def _interval_cases():
     return st.sampled_from(_KINDS).flatmap(build)
 
 
+# ---------------------------------------------------------------------------------------------- check: late ticks
+def _run_late(case):
+    """interval / timer whose ticks are served LATE: the observer's on_next consumes virtual time (scheduler.sleep inside
+    the callback) and/or the clock sleeps at top level while a tick is pending - amounts chosen to land exactly on, just
+    before and just after whole periods.  What the statement determines for a late tick is judged, nothing more:
+    values are 0,1,2,... in order; value k is never emitted before t0 + d + k*period; with a period > 0 no two values are
+    emitted at the same instant ('once per period'); the first value is not lost."""
+    kind, init, period, d, op, dform = case["kind"], case["init"], case["period"], case["d"], case["op"], case["dform"]
+    handled = []
+    inner, sched, base = _build(kind, init, True, handled)
+    drv = _Driver(inner, base, init)
+    origin = init
+    cls = [kind, op]
+    overruns = [m * period + x for m, x in case["overrun"]]
+    overruns = [max(o, 0) for o in overruns]
+    n_max = case["take"]
+    log, terminal, holder = [], [], {}
+    try:
+        p_arg = enc_rel(base, period, case["pform"])
+        if op == "interval":
+            first = period
+            obs = reactivex.interval(p_arg, scheduler=sched)
+        else:
+            first = d
+            d_arg = enc_abs(base, origin + d, "dt") if dform == "dt" else enc_rel(base, max(d, 0), dform)
+            if dform != "dt":
+                first = max(d, 0)
+            obs = reactivex.timer(d_arg, p_arg, scheduler=sched)
+
+        def on_next(v):
+            k = len(log)
+            if k > n_max + 3:
+                raise _Runaway()
+            log.append([drv.now(), canon(v)])
+            if k + 1 >= n_max:
+                holder["d"].dispose()
+            o = overruns[k % len(overruns)]
+            if o:
+                inner.sleep(enc_rel(base, o, "num"))  # the observer takes o units of virtual time
+
+        holder["d"] = obs.subscribe(on_next=on_next, on_error=lambda e: terminal.append(["E", repr(e)]), on_completed=lambda: terminal.append(["C"]))
+        slept = 0
+        for how, u in case["pre"]:
+            if how == "sleep":
+                amt = max(u[0] * period + u[1] + (max(first, 0) if u[2] else 0), 0)
+                inner.sleep(enc_rel(base, amt, "num"))
+                slept += amt
+            else:
+                inner.advance_by(enc_rel(base, max(u[0] * period + u[1], 1), "num"))
+                slept += max(u[0] * period + u[1], 1)
+        horizon = max(first, 0) + (n_max + 1) * (period + max(overruns)) + slept + 5
+        inner.advance_to(enc_abs(base, origin + horizon, "num"))
+    except _Runaway:
+        inner.stop()
+        return FAIL(f"runaway-emissions|{op}", f"more than {n_max + 3} values although disposed after {n_max}; log={log[:8]} case={case}", classes=cls)
+    except Exception as e:  # noqa: BLE001
+        return escaped(e, f"{op}|{kind}", f"case={case}", cls)
+    path = "periodic-path" if (op == "interval" or (dform != "dt" and d == period and dform == case["pform"])) else "duetime-path"
+    cls.append(path)
+    late = [i for i, (t, _) in enumerate(log) if t > origin + first + i * period]
+    if late:
+        cls.append("late-tick-served")
+    exact = [i for i in range(1, len(log)) if log[i][0] - (origin + first + (i - 1) * period) > 0 and (log[i - 1][0] - (origin + first)) % period == 0 and log[i - 1][0] > origin + first + (i - 1) * period]
+    if exact:
+        cls.append("tick-served-whole-periods-late")
+    if any(h == "sleep" for h, _ in case["pre"]):
+        cls.append("top-level-sleep-over-pending-tick")
+    if any(overruns[k % len(overruns)] for k in range(len(log))):
+        cls.append("observer-consumes-virtual-time")
+    for i, (t, v) in enumerate(log):
+        if v != ["int", i]:
+            return FAIL(f"value|{op}|late", f"emission #{i} is {v}, expected int {i}; log={log[:8]} case={case}", classes=cls)
+        if t < origin + first + i * period:
+            return FAIL(f"early-tick|{op}|late", f"value {i} at {t}, before t0+d+k*p = {origin + first + i * period}; log={log[:8]} case={case}", classes=cls)
+        if i and t == log[i - 1][0]:
+            return FAIL(f"two-values-at-one-instant|{op}", f"values {i - 1} and {i} both at {t} (period {period}); log={log[:8]} case={case}", classes=cls)
+        if i and t < log[i - 1][0]:
+            return FAIL(f"time-went-backwards|{op}", f"log={log[:8]} case={case}", classes=cls)
+    if len(log) > n_max:
+        return FAIL(f"emitted-after-dispose|{op}|late", f"{len(log)} values, disposed after {n_max}; case={case}", classes=cls)
+    if not log:
+        return FAIL(f"missing-ticks|{op}|late", f"no value although the clock went {horizon} units past the subscription; case={case}", classes=cls)
+    if terminal or drv.escapes or handled:
+        return FAIL(f"terminal-or-escape|{op}|late", f"{terminal} {drv.escapes} {handled} case={case}", classes=cls)
+    return OK(bool(late) and len(log) >= 3, cls)
+
+
+def _late_cases():
+    amount = st.tuples(st.sampled_from([0, 0, 1, 1, 2, 3]), st.sampled_from([0, 0, 0, 1, -1])).map(list)
+
+    def build(kind):
+        base = kind.split("-")[-1]
+        init = st.sampled_from([0, 0, 3, 86_400_000]) if base in ("hist", "histus") else st.just(0)
+        period = st.integers(1, 6)
+
+        def with_period(p):
+            pre = st.lists(
+                st.one_of(
+                    st.tuples(st.just("sleep"), st.tuples(st.sampled_from([0, 1, 1, 2]), st.sampled_from([0, 0, 1, -1]), st.booleans()).map(list)).map(list),
+                    st.tuples(st.just("adv"), st.tuples(st.sampled_from([0, 1, 2]), st.sampled_from([0, 1, 2])).map(list)).map(list),
+                ),
+                max_size=3,
+            )
+            return st.fixed_dictionaries(
+                {
+                    "kind": st.just(kind),
+                    "init": init,
+                    "op": st.sampled_from(["interval", "timer", "timer", "timer"]),
+                    "period": st.just(p),
+                    "pform": st.sampled_from(["num", "int", "td"]),
+                    "d": st.one_of(st.just(p), st.integers(0, 9), st.sampled_from([-p, -2 * p, -1])),
+                    "dform": st.sampled_from(["num", "td", "dt", "dt"]),
+                    "overrun": st.lists(amount, min_size=1, max_size=4),
+                    "take": st.integers(2, 7),
+                    "pre": pre,
+                }
+            )
+
+        return period.flatmap(with_period)
+
+    return st.sampled_from(_KINDS).flatmap(build)
+
+
 def _resub_cases():
     sub = st.tuples(st.integers(0, 30), st.one_of(st.none(), st.integers(1, 40))).map(list)
     return st.tuples(_interval_cases(), st.lists(sub, min_size=1, max_size=2), st.one_of(st.none(), st.integers(1, 25))).map(
@@ -548,6 +672,7 @@ def _resub_cases():
 
 def _virtual_checks(tier):
     return [
+        Check("late_ticks", _run_late, strategy=_late_cases(), examples={"quick": 600, "thorough": 16 * 5000}, shards={"quick": 4, "thorough": 16}),
         Check("resubscribe", _run_resub, strategy=_resub_cases(), examples={"quick": 600, "thorough": 16 * 5000}, shards={"quick": 4, "thorough": 16}),
         Check("periodic", _run_periodic, strategy=_periodic_cases(), examples={"quick": 1600, "thorough": 16 * 12000}, shards={"quick": 4, "thorough": 16}),
         Check("interval", _run_interval, strategy=_interval_cases(), examples={"quick": 900, "thorough": 16 * 8000}, shards={"quick": 4, "thorough": 16}),
